@@ -162,8 +162,61 @@ def generic(prop, tier, seed):
     return finish(prop, tier, seed, level(prop), res, g["rule"], g["distinct"](res), g["evaluations"](res), g["assumptions"], t0, g.get("extra_cov", lambda r: {})(res), exhaustive=g.get("exhaustive"))
 
 
+def c07(prop, tier, seed):
+    t0 = time.time()
+    wd = workdir(prop, tier)
+    res = Result()
+    notes = {}
+    try:
+        files, secs, multi = (14, 90, 600) if tier == "quick" else (220, 900, 3000)
+        cases = files * 12
+        extra = ["--multi", str(multi)]
+        b1 = build("checked")
+        r1 = run_shards(b1, "crc", extra, cases, secs, seed, tier, wd, "builtin", prop)
+        b2 = build("checked", ["crc32c"])
+        r2 = run_shards(b2, "crc", extra, cases, secs, seed, tier, wd, "crc32c", prop)
+        # both back-ends must have produced identical files and identical verdict streams
+        same_cases = r1.cases == r2.cases and r1.stats.get("variants") == r2.stats.get("variants")
+        for key, what in (("digest_files_sum48", "files"), ("digest_verdicts_sum48", "verdicts")):
+            a, b = r1.stats.get(key), r2.stats.get(key)
+            notes[f"backend_{what}_digest_builtin"] = a
+            notes[f"backend_{what}_digest_crc32c"] = b
+            if same_cases and a != b:
+                v = {"prop": prop, "sig": f"{prop}/backends-differ/{what}", "detail": f"built-in and crc32c back-ends disagree on the {what} digest over the same seeded workload: {a} vs {b}", "workload": "crc", "seed": seed, "case": 0, "args": None}
+                res.viols.append(v)
+        if not same_cases:
+            res.inconclusive.append({"why": "the two back-end runs did not cover the same cases (time cap hit); digests not compared", "cases": [r1.cases, r2.cases]})
+        if set(k for k in r1.sigcounts) != set(k for k in r2.sigcounts):
+            res.notes.append("violation signatures differ between back-ends")
+        res.merge(r1)
+        res.merge(r2)
+        if tier == "thorough":
+            # supplementary gate: the unsafe code of the crc32c crate under valgrind memcheck
+            vg = shutil.which("valgrind")
+            if vg:
+                out = os.path.join(wd, "vg.jsonl")
+                p = subprocess.run([vg, "-q", "--error-exitcode=9", b2, "crc", "--cases", "13", "--multi", "40", "--seed", str(seed), "--out", out], env=driver.ENV, stdout=subprocess.PIPE, stderr=subprocess.PIPE, text=True, timeout=3000)
+                notes["valgrind_memcheck_rc"] = p.returncode
+                if p.returncode == 9:
+                    res.viols.append({"prop": prop, "sig": f"{prop}/valgrind-memcheck-report", "detail": p.stderr[-1500:], "workload": "crc", "seed": seed, "case": 0, "args": None})
+                elif p.returncode != 0:
+                    res.inconclusive.append({"why": "valgrind run failed to execute", "rc": p.returncode, "stderr": p.stderr[-400:]})
+    finally:
+        cleanup(wd)
+    rule = ("one case = (small generated file of 2..12 pages, page): EVERY single-bit flip of the page (8192, payload and checksum bytes) plus sampled 2-/3-bit flips (same page and across pages), bursts <=32 bits at every bit phase and random overwrites; on each altered image: validate_crc must fail (guaranteed classes), E57Reader::new either fails or reports exactly the intact descriptors/header/xml, then a shuffled operation sequence with repetitions (raw, simple, blobs, descriptors) where each result is Err or equal to the intact file's; stored checksums are compared with an independent bitwise CRC-32C; the same seeded workload runs on the built-in and on the crc32c back-end and file/verdict digests must agree; "
+            "non-trivial = altered image; distinct = pages flipped exhaustively (each contributes 8192 distinct images)")
+    distinct = res.stats.get("pages_flipped_exhaustively", 0)
+    extra = dict(notes)
+    extra.update({"variants": res.stats.get("variants", 0), "variants_open_accepted": res.stats.get("variants_open_accepted", 0), "ops_err": res.stats.get("ops_err", 0), "ops_equal": res.stats.get("ops_equal", 0),
+                  "repeated_after_failure": res.stats.get("repeated_after_failure", 0), "pages_crc_checked_against_independent_crc": res.stats.get("pages_crc_checked", 0), "exhaustive": False,
+                  "exhaustive_part": "all 8192 single-bit flips of every page of every generated file"})
+    assumptions = ["raw_xml() is documented to use the header fields without validation (salvage tool) and is not part of the 'Err or equal' oracle", "detection is asserted only inside CRC-32C's guaranteed classes (<=3 bits per page, one burst <=32 bits); for random overwrites only 'Err or equal'", "header() is among the compared results"]
+    return finish(prop, tier, seed, level(prop), res, rule, distinct, res.stats.get("variants", 0), assumptions, t0, extra)
+
+
 PLANS = {p: roundtrip for p in RT}
 PLANS.update({p: generic for p in GEN})
+PLANS["C07"] = c07
 
 
 def run(prop, tier, seed):
